@@ -181,7 +181,17 @@ func (nd *node) setModTime(mtime time.Time) {
 }
 
 // setOwner sets the user and group id.
+// As chown(2) by an administrator (OrefaFS does not check permissions), it clears the set-user-ID bit
+// of a node that is not a directory, and its set-group-ID bit if the group-execute bit is set.
 func (nd *node) setOwner(uid, gid int) {
+	if !nd.dir {
+		if nd.mode&0o010 != 0 {
+			nd.mode &^= fs.ModeSetgid
+		}
+
+		nd.mode &^= fs.ModeSetuid
+	}
+
 	// A uid or gid of -1 means to not change that value.
 	if uid != -1 {
 		nd.uid = uid
